@@ -78,6 +78,12 @@ var fields = map[string]field{
 		b.WriteString(e.RequestURL.RawQuery)
 	},
 	"$request_host": func(b *bytes.Buffer, e *Event) {
+		// e.Request.Host may have been replaced by the route's host option:
+		// the host the client asked for is the one of the request URL
+		if e.RequestURL != nil {
+			b.WriteString(e.RequestURL.Host)
+			return
+		}
 		if e.Request == nil {
 			return
 		}
